@@ -73,7 +73,7 @@ def write_case(d, asms, assign, gap_model='flow', core_len=0.4, pitch=0.030, set
     lines += list(extra_sections)
     with open(os.path.join(d, 'input.txt'), 'w') as f:
         f.write('\n'.join(lines) + '\n')
-    # power csv: asm id, component (1 pins, 2 duct, 3 coolant), z_lo, z_hi (cm), index, coefficients
+    # power csv: asm id, component (1 pins, 2 duct, 3 coolant), z_lo, z_hi (m), index, coefficients (W/m^i)
     cells = power_cells or [(0.0, core_len)]
     rows = []
     for (n, r, p, bc) in assign:
@@ -88,6 +88,6 @@ def write_case(d, asms, assign, gap_model='flow', core_len=0.4, pitch=0.030, set
             for comp, cnt in ((1, npin), (2, nd), (3, nsc)):
                 for k in range(cnt):
                     c0 = pin_power(k) if comp == 1 else other_power
-                    rows.append([aid, comp, zlo * 100.0, zhi * 100.0, k + 1, c0] + [0.0] * (n_terms - 1))
+                    rows.append([aid, comp, zlo, zhi, k + 1, c0] + [0.0] * (n_terms - 1))
     np.savetxt(os.path.join(d, 'power.csv'), np.array(rows), delimiter=',', fmt='%.12g')
     return os.path.join(d, 'input.txt')
